@@ -131,6 +131,14 @@ def gen_program(case_seed, force=None):
     outers = [o for o in sigs.U(('a', 'b'), 2) if sigs.has_kind(o, VA) or sigs.has_kind(o, VK)]
     inners = sigs.U(('x', 'y', 'z'), 3, stars=sigs.STARS2[:1])
     po = rnd.choice(outers)
+    if 'taints' not in force and rnd.random() < 0.12:
+        # a wider forwarding function: up to three named parameters of its own, drawn by kind profile (several
+        # positional-only ones followed by several regular ones, ...)
+        for _ in range(30):
+            cand = sigs.pick_stratified(rnd, ('a', 'b', 'c'), 3)
+            if sigs.has_kind(cand, VA) or sigs.has_kind(cand, VK):
+                po = cand
+                break
     if route == 'selfmethod' and sigs.has_kind(po, PO) and rnd.random() < 0.5:
         po = tuple(p for p in po if p[1] != PO)
         if not (sigs.has_kind(po, VA) or sigs.has_kind(po, VK)):
